@@ -75,6 +75,7 @@ def step (st : St) (ws : List String) (impl : String) : St × Ans :=
       (st, { m := s!"nodes={st.t.root.size} pairs={",".intercalate sorted}",
              s := if st.t.root.abs.isEmpty then "nodes=1 pairs=" else "=" })
   | ["conc", _] => (st, { m := "same" })
+  | ["concshare", _] => (st, { m := "valid" })
   | _ => (st, bad)
 
 end Driver.C01
